@@ -28,7 +28,8 @@ def canon_value(value, depth=0):
         return "uid:" + str(value)
     if isinstance(value, np.ndarray):
         if value.dtype.names:
-            return ["rec", list(value.dtype.names), [canon_value(list(r), depth + 1) for r in value.tolist()]]
+            rows = np.atleast_1d(value).tolist()
+            return ["rec", list(value.dtype.names), [canon_value(list(r), depth + 1) for r in rows]]
         if value.dtype.kind == "f":
             flat = [("NaN" if v != v else v) for v in value.ravel().tolist()]
             return ["arr", "f", list(value.shape), flat]
